@@ -14,3 +14,4 @@ import GPy.C13.Props
 import GPy.C02.Props
 import GPy.C14.Props
 import GPy.C08.Props
+import GPy.C09.Props
